@@ -17,7 +17,14 @@ def onArcOracle (f t x : Float) : Option Bool :=
   else
     let t' := if t < f then t + tp * Float.ceil ((f - t) / tp) else t
     let width := t' - f
-    if width < 1e-9 then none   -- from ≡ to modulo a turn: rounding decides between an empty and a full arc
+    if width < 1e-9 then
+      -- a sliver arc [f, t] (f < t): only angles next to f can be on it; when the limits were wrapped (t < f) and
+      -- from ≡ to modulo a turn, rounding decides between an empty and a full arc: don't care
+      if f < t then
+        let d0 := F.fmod (x - f) tp
+        let d := if d0 < 0.0 then d0 + tp else d0
+        if d > 1e-9 && tp - d > 1e-9 then some false else none
+      else none
     else if width ≥ tp + 1e-9 then some true
     else
       let d0 := F.fmod (x - f) tp
@@ -51,8 +58,12 @@ def opC07 : RM Res := do
   let okRows := rows.toList == mrows
   let okKept := kept == (m.filter angles).length
   -- predicates on the implementation's verdicts
-  let fr := cf.toList
-  let tt := ct.toList
+  -- the arc is the one the caller asked for (degrees converted here), not whatever the object reports back
+  let deg := fun (x : Float) => if ctor == 1 then x * (piF / 180.0) else x
+  let fr := f.toList.map deg
+  let tt := t.toList.map deg
+  let limitsKept := (fr.zip cf.toList).all (fun (a, b) => (a - b).abs ≤ 1e-12 * (1.0 + a.abs)) &&
+                    (tt.zip ct.toList).all (fun (a, b) => (a - b).abs ≤ 1e-12 * (1.0 + a.abs))
   let mut badArc : Option String := none
   let mut checked := 0
   let mut accepted := 0
@@ -63,10 +74,11 @@ def opC07 : RM Res := do
       | some b =>
         checked := checked + 1
         if got then accepted := accepted + 1
-        if b != got && badArc.isNone then badArc := some s!"angles {showJ6 a} from {showJ6 cf} to {showJ6 ct}: inside {ins} expected {want}"
+        if b != got && badArc.isNone then badArc := some s!"angles {showJ6 a} from {fr} to {tt}: inside {ins} expected {want}"
       | none => pure ()
     if c != ins.all id && badArc.isNone then badArc := some s!"compliant {c} is not the conjunction of the per-joint verdicts {ins}"
   let preds := [("C07.arc", badArc.isNone, badArc.getD ""),
+                ("C07.limits_kept", limitsKept, s!"requested limits {fr} .. {tt}, the object reports {showJ6 cf} .. {showJ6 ct}"),
                 ("C07.centre_accepted", centreOk, s!"centres {showJ6 cc} rejected by their own constraints"),
                 ("C07.filter", kept == (rows.toList.filter (·.1)).length, "filter keeps a different number than compliant accepts")]
   pure { corr := if okHead && okRows && okKept then "OK" else "MISMATCH",
